@@ -85,24 +85,30 @@ Inductive cstate := StInit | StSubscribed | StClosing.
 Definition cstate_eqb (a b : cstate) : bool :=
   match a, b with StInit, StInit | StSubscribed, StSubscribed | StClosing, StClosing => true | _, _ => false end.
 
+(* the certificate a TLS client presents: none / a self-signed one / one signed by the
+   configured CA *)
+Inductive ccert := CertNone | CertSelfSigned | CertCA.
+Definition ccert_eqb (a b : ccert) : bool :=
+  match a, b with CertNone, CertNone | CertSelfSigned, CertSelfSigned | CertCA, CertCA => true | _, _ => false end.
+
 Record conn := mkConn {
   k_state : cstate;
   k_tls : bool;                      (* clientV2.TLS: set only by UpgradeTLS *)
   k_auth : option auth_state;        (* clientV2.AuthState *)
   k_secret : str;                    (* clientV2.AuthSecret *)
-  k_hb_off : bool                    (* HeartbeatInterval <= 0 *)
+  k_hb_off : bool;                   (* HeartbeatInterval <= 0 *)
+  k_peer : ccert                     (* tlsConn.ConnectionState().PeerCertificates[0], if any *)
 }.
-Definition conn_init : conn := mkConn StInit false None [] false.
-Definition set_state (k : conn) (s : cstate) := mkConn s (k_tls k) (k_auth k) (k_secret k) (k_hb_off k).
-Definition set_tls (k : conn) := mkConn (k_state k) true (k_auth k) (k_secret k) (k_hb_off k).
-Definition set_auth (k : conn) (a : option auth_state) := mkConn (k_state k) (k_tls k) a (k_secret k) (k_hb_off k).
-Definition set_secret (k : conn) (s : str) := mkConn (k_state k) (k_tls k) (k_auth k) s (k_hb_off k).
-Definition set_hb_off (k : conn) (b : bool) := mkConn (k_state k) (k_tls k) (k_auth k) (k_secret k) b.
+Definition conn_init : conn := mkConn StInit false None [] false CertNone.
+Definition set_state (k : conn) (s : cstate) := mkConn s (k_tls k) (k_auth k) (k_secret k) (k_hb_off k) (k_peer k).
+Definition set_tls (k : conn) (peer : ccert) := mkConn (k_state k) true (k_auth k) (k_secret k) (k_hb_off k) peer.
+Definition set_auth (k : conn) (a : option auth_state) := mkConn (k_state k) (k_tls k) a (k_secret k) (k_hb_off k) (k_peer k).
+Definition set_secret (k : conn) (s : str) := mkConn (k_state k) (k_tls k) (k_auth k) s (k_hb_off k) (k_peer k).
+Definition set_hb_off (k : conn) (b : bool) := mkConn (k_state k) (k_tls k) (k_auth k) (k_secret k) b (k_peer k).
 
 (* ------------------------------------------------------------------ commands *)
 (* what the TLS client does during the upgrade: gives up, or completes its side
-   presenting no certificate / a self-signed one / one signed by the configured CA *)
-Inductive ccert := CertNone | CertSelfSigned | CertCA.
+   presenting a certificate (or none) *)
 Inductive handshake := HsAbort | HsCert (c : ccert).
 (* crypto/tls under ClientAuth = NoClientCert / RequireAnyClientCert / RequireAndVerifyClientCert *)
 Definition handshake_ok (p : cert_policy) (h : handshake) : bool :=
@@ -115,6 +121,15 @@ Definition handshake_ok (p : cert_policy) (h : handshake) : bool :=
                 | PolRequireVerify, CertCA => true
                 | PolRequireVerify, _ => false
                 end
+  end.
+
+(* the peer certificate the server sees after a completed handshake: under NoClientCert it
+   does not ask for one *)
+Definition peer_seen (p : cert_policy) (h : handshake) : ccert :=
+  match p, h with
+  | PolNone, _ => CertNone
+  | _, HsCert c => c
+  | _, HsAbort => CertNone
   end.
 
 Inductive hb_req := HbKeep | HbOff | HbOn.    (* heartbeat_interval 0 / -1 / a valid value *)
@@ -168,11 +183,12 @@ Inductive effect :=
 | FxGetChannel (t c : str)           (* topic.GetChannel: the channel exists afterwards *)
 | FxPut (t : str) (n : N)            (* n messages enqueued on the topic *)
 | FxAddClient (t c : str)            (* the connection consumes from the channel *)
-| FxAuthQuery (secret : str) (tls : bool)   (* one HTTP query to an auth server *)
+| FxAuthQuery (secret : str) (tls : bool) (peer : ccert)
+                                     (* one HTTP query to an auth server: secret, tls=, common_name= of [peer] *)
 | FxUpgradeTLS.                      (* completed server-side handshake *)
 
 Definition is_world (f : effect) : bool :=
-  match f with FxAuthQuery _ _ | FxUpgradeTLS => false | _ => true end.
+  match f with FxAuthQuery _ _ _ | FxUpgradeTLS => false | _ => true end.
 
 Record result := mkRes { r_conn : conn; r_oracle : oracle; r_resps : list resp; r_fx : list effect }.
 Definition fail (k : conn) (o : oracle) (c : ecode) : result := mkRes k o [RErr c true] [].
@@ -254,7 +270,7 @@ Fixpoint query_any (n : nat) (now : Z) (o : oracle) : option auth_state * oracle
       end
   end.
 
-Definition queries (k : conn) (q : nat) : list effect := repeat (FxAuthQuery (k_secret k) (k_tls k)) q.
+Definition queries (k : conn) (q : nat) : list effect := repeat (FxAuthQuery (k_secret k) (k_tls k) (k_peer k)) q.
 
 (* clientV2.HasAuthorizations *)
 Definition has_authorizations (k : conn) : bool :=
@@ -295,7 +311,7 @@ Definition do_identify (cfg : config) (k : conn) (o : oracle) (b : ident) : resu
           let codecs := (if snappy then [ROk] else []) ++ (if deflate then [ROk] else []) in
           if tlsv1 then
             if handshake_ok (c_policy cfg) hs
-            then mkRes (set_tls k1) o (first :: ROk :: codecs) [FxUpgradeTLS]
+            then mkRes (set_tls k1 (peer_seen (c_policy cfg) hs)) o (first :: ROk :: codecs) [FxUpgradeTLS]
             else mkRes k1 o [first; RErr E_IDENTIFY_FAILED true] []
           else mkRes k1 o (first :: codecs) []
   end.
@@ -503,7 +519,7 @@ Definition may_upgrade (cfg : config) (e : entry) : bool :=
 (* the command queried the auth server (AUTH, or a re-query on expiry) and this is what
    the query returned *)
 Definition queried (e : entry) : bool :=
-  existsb (fun f => match f with FxAuthQuery _ _ => true | _ => false end) (e_fx e).
+  existsb (fun f => match f with FxAuthQuery _ _ _ => true | _ => false end) (e_fx e).
 Definition fetched (cfg : config) (e : entry) : option auth_state :=
   if queried e then fst (fst (query_any (c_authd cfg) (e_now e) (e_oracle e))) else None.
 
